@@ -486,14 +486,17 @@ fn single_line_string(input: Span) -> IResult<Span, String> {
 
 fn string_term(input: Span) -> IResult<Span, Term> {
     // Multi-line (`"""`) first, so its opening delimiter isn't read as an empty `""` string.
-    alt((
+    let start = input;
+    let (rest, (style, segments)) = alt((
         map(multiline_string_segments, |segments| {
-            Term::String(StringStyle::Multi, segments)
+            (StringStyle::Multi, segments)
         }),
         map(single_line_segments, |segments| {
-            Term::String(StringStyle::Single, segments)
+            (StringStyle::Single, segments)
         }),
-    ))(input)
+    ))(input)?;
+    let span = Spanned(Some(span_between(start, rest)));
+    Ok((rest, Term::String(style, segments, span)))
 }
 
 /// Parse a single-line string at term position into its segments, where `{ … }` introduces an
